@@ -26,7 +26,7 @@ func init() {
 			"and presentation). Oracle: naive frequency table over the split maps of the independent reference model. Non-trivial: ≥ 1 split is kept with " +
 			"frequency < 1 and ≥ 1 is dropped, or a frequency equals the threshold exactly; distinct = distinct (threshold, tree texts)",
 		Gen: func(rt *rapid.T, tier string) any {
-			pc := genPipe(rt, tier, pipeGenOpts{algos: []string{"consensus"}, faults: true, minTax: 4, maxTax: 10, maxTrees: 16, rootedRecs: true, twoBases: true})
+			pc := genPipe(rt, tier, pipeGenOpts{algos: []string{"consensus"}, faults: true, minTax: 4, maxTax: 10, maxTrees: 16, rootedRecs: true, twoBases: true, maxFaults: 3})
 			if rapid.IntRange(0, 9).Draw(rt, "badcutoff") == 0 {
 				pc.Cutoff = rapid.SampledFrom(c09BadCutoffs).Draw(rt, "cutoff")
 				pc.BadCutoff = true
